@@ -1347,6 +1347,26 @@ def np_concatenate(I, parts, **kw):
     return SArr(z3.Lambda([k], body), z3.simplify(off), elem, 'ndarray')
 
 
+def np_argext(which):
+    def f(I, a, **kw):
+        """assumed contract of np.argmax / np.argmin on a 1-d array: the first position of the largest / smallest element; ValueError on an empty array"""
+        assumed(I, 'seqops')
+        if not isinstance(a, SArr):
+            raise Unsupported(f"arg{which} of {type(a).__name__}")
+        if not I.decide(a.n > 0):
+            raise PyRaise('ValueError', f'arg{which} of an empty sequence')
+        i = I.fresh(f'arg{which}', 'int')
+        k = z3.Int(_fresh_name(I, 'k'))
+        ai = z3.Select(a.a, i)
+        better = (lambda x, y: x <= y) if which == 'max' else (lambda x, y: x >= y)
+        strictly = (lambda x, y: x < y) if which == 'max' else (lambda x, y: x > y)
+        I.assume(z3.And(i >= 0, i < a.n))
+        I.assume(z3.ForAll([k], z3.Implies(z3.And(k >= 0, k < a.n), better(z3.Select(a.a, k), ai))))
+        I.assume(z3.ForAll([k], z3.Implies(z3.And(k >= 0, k < i), strictly(z3.Select(a.a, k), ai))))
+        return SV(i)
+    return f
+
+
 def np_searchsorted(I, a, v, side='left', **kw):
     """assumed contract (A_TEXT['searchsorted']); precondition: a is sorted (stated on adjacent elements)"""
     assumed(I, 'searchsorted')
@@ -1954,6 +1974,7 @@ def make_libs(I):
     np_ = LibNS('np', {
         'asarray': L(np_asarray), 'array': L(np_array), 'fabs': L(np_abs), 'abs': L(np_abs), 'absolute': L(np_abs),
         'sign': L(np_sign), 'power': L(np_power), 'divide': L(np_divide), 'sqrt': L(np_sqrt), 'log10': L(np_log10), 'log': L(np_log),
+        'argmax': L(np_argext('max')), 'argmin': L(np_argext('min')),
         'exp': L(np_exp), 'cos': L(np_cos), 'where': L(np_where), 'full_like': L(np_full_like),
         'ones_like': Builtin('ones_like', lambda x, **k: np_full_like(I, x, 1.0, dtype=1)),
         'zeros_like': Builtin('zeros_like', lambda x, **k: np_full_like(I, x, 0.0, dtype=1)),
